@@ -466,6 +466,14 @@ static SSL_CTX *load_ssl_ctx(const char *cert_data, const char *key_data,
 
     SSL_CTX_set_session_cache_mode(ssl_ctx, SSL_SESS_CACHE_OFF);
 
+#ifdef HAS_TLS_1_3
+    /* With neither a session cache, nor stateless tickets, TLS 1.3
+       session tickets are of no use. Worse, a client which sends and
+       closes without ever reading leaves them unread, which turns its
+       close into a TCP reset, and the data it sent may be lost. */
+    SSL_CTX_set_num_tickets(ssl_ctx, 0);
+#endif
+
     if (install_cert(ssl_ctx, cert_data, log_ref) < 0)
 	goto err_free;
 
